@@ -52,7 +52,13 @@ class ForTargetDefCompileHandler(AbstractFuncdefCompileHandler[ExplorerScriptPar
         integer_like = self._linked_to_target
         try:
             linked_to = exps_int(integer_like)  # type: ignore
+            is_number = True
         except ValueError:
+            is_number = False
+        if not is_number:
+            # (outside of the except block: compile() re-raises the first exception of a context chain)
+            if not hasattr(integer_like, "name"):
+                raise SsbCompilerError("The target of a routine must be an integer or a constant.")
             linked_to_name = integer_like.name  # type: ignore
 
         target: ExplorerScriptParser.For_target_def_targetContext = self.ctx.for_target_def_target()
